@@ -352,18 +352,17 @@ Proof.
     destruct ((lo <=? i) && (i <? hi)); [|exact B5]. intros E0. rewrite E0 in B5. apply B5. reflexivity.
 Qed.
 
-Lemma quoted_value_spec delim z : lx_wf z -> delim <> 0 ->
-  exists n z', quoted_value delim z = Some z' /\ 0 <= n /\
+Lemma quoted_value_spec pi delim z : lx_wf z -> delim <> 0 ->
+  exists n z', quoted_value pi delim z = Some z' /\ 0 <= n /\
     advw z z' (lpos z) (lpos z + n) /\
-    (lpos z' = lpos z + n + 1 /\ getz (lbuf z) (lpos z + n) = delim \/
-     lpos z' = lpos z + n /\ getz (lbuf z) (lpos z + n) = 0).
+    (lpos z' = lpos z + n + 1 /\ getz (lbuf z) (lpos z + n) = delim \/ lpos z' = lpos z + n).
 Proof.
   intros H Hd. pose proof (wf_range z H) as Hr. unfold quoted_value.
-  destruct (scan_while_lx (until delim) z H (until_0 delim)) as (n & Hn & H0 & H1 & H2 & H3).
+  destruct (scan_quoted_lx pi delim z H) as (n & Hn & H0 & H1 & H2 & H3).
   rewrite Hn. cbn [option_bind]. exists n.
   set (z1 := mkLx (norm_range (lbuf z) (lpos z) (lpos z + n)) (lpos z + n) (lstart z)).
   assert (A : advw z z1 (lpos z) (lpos z + n)).
-  { unfold advw, z1. cbn [lbuf lstart lpos]. repeat split; try lia. eapply until_nz. exact H2. }
+  { unfold advw, z1. cbn [lbuf lstart lpos]. repeat split; try lia. exact H2. }
   pose proof (advw_wf _ _ _ _ H A) as W. pose proof (advw_len _ _ _ _ H A) as E.
   rewrite (pk_getz z1 0 W) by (rewrite E; cbn [lpos z1]; lia). cbn [option_bind].
   assert (Ec : getz (lbuf z1) (lpos z1 + 0) = getz (lbuf z) (lpos z + n)).
@@ -371,14 +370,13 @@ Proof.
     replace (lpos z + n + 0) with (lpos z + n) by lia.
     destruct (Z.ltb_spec (lpos z + n) (lpos z + n)); [lia|]. rewrite andb_false_r. reflexivity. }
   rewrite Ec. set (c := getz (lbuf z) (lpos z + n)) in *.
-  unfold until in H3. destruct (Z.eqb_spec c delim) as [E1|E1].
+  destruct (Z.eqb_spec c delim) as [E1|E1].
   - eexists. split; [reflexivity|]. split; [exact H0|]. split.
     + eapply advw_trans_adv_r; [exact H|exact A|]. apply adv_mvk; [exact W|lia|].
       intros j Hj. replace j with 0 by lia. rewrite Ec. fold c. lia.
     + left. cbn [lpos mv z1]. split; [lia|exact E1].
   - eexists. split; [reflexivity|]. split; [exact H0|]. split; [exact A|].
-    right. cbn [lpos z1]. split; [reflexivity|]. cbn [orb negb] in H3.
-    destruct (Z.eqb_spec c 0); [assumption|discriminate].
+    right. reflexivity.
 Qed.
 
 (* ---- shiftAttribute ------------------------------------------------------------------------------------ *)
@@ -437,7 +435,7 @@ Proof.
       assert (Hq : is_quote delim) by (unfold is_quote; lia).
       assert (A5 : adv z4 (mv z4 1)) by (apply adv_mv1; [assumption|fold delim; unfold is_quote in Hq; lia]).
       pose proof (adv_wf _ _ W4 A5) as W5. pose proof (adv_trans _ _ _ A14 A5) as A15.
-      destruct (quoted_value_spec delim (mv z4 1) W5 ltac:(unfold is_quote in Hq; lia)) as (n & z6 & Hqv & Q0 & Q1 & Q2).
+      destruct (quoted_value_spec pi delim (mv z4 1) W5 ltac:(unfold is_quote in Hq; lia)) as (n & z6 & Hqv & Q0 & Q1 & Q2).
       rewrite Hqv. cbn [option_bind].
       pose proof (advw_trans_adv _ _ _ _ _ H A15 Q1) as A16.
       pose proof (advw_wf _ _ _ _ H A16) as W6.
